@@ -63,3 +63,45 @@ def to_scenario(sid, script, prereg=("A",), qos="reliable", conn=None, ack_flush
             steps.append({"a": "await", "ev": "DownResumed", "ms": 4000})
     steps += [{"a": "quiesce"}, {"a": "downState", "obj": "D1"}, {"a": "closeConn", "g": "main2", "wait": True, "ctxMs": 2000}, {"a": "quiesce", "ms": 50}]
     return {"id": sid, "kind": "iscp", "conn": conn or {}, "steps": steps}
+
+
+META_CFG = """SPECIFICATION %(spec)s
+CONSTANTS
+  Srcs = {%(srcs)s}
+  Filters <- %(filters)s
+  NMeta = %(n)d
+  Cap = %(cap)d
+  InboxCap = %(inbox)d
+  SharedSub = %(shared)s
+  RecordScript = %(record)s
+%(invs)s
+%(constraint)s
+CHECK_DEADLOCK FALSE
+"""
+META_INVS = "PerSourceOrder OnceEach OnlySent OnlySubscribed AckMatches NoDropWithinCap AllDeliveredWhenQuiet OrphanEmpty"
+META_FILTERS = {"F_1": ["n1"], "F_12": ["n1", "n2"], "F_11": ["n1", "n1"], "F_121": ["n1", "n2", "n1"], "F_111": ["n1", "n1", "n1"]}
+
+
+def write_meta_cfg(name, srcs=("n1", "n2", "zz"), filters="F_121", n=4, cap=4, inbox=2, shared=False, invs=META_INVS, gen=False, live=False):
+    with open(os.path.join(SPEC, name), "w") as f:
+        f.write(META_CFG % dict(spec="FairSpec" if live else "Spec", srcs=q(srcs), filters=filters, n=n, cap=cap, inbox=inbox,
+                                shared="TRUE" if shared else "FALSE", record="TRUE" if gen else "FALSE",
+                                invs=("PROPERTIES EventuallyAll" if live else "INVARIANTS " + invs),
+                                constraint="CONSTRAINT GenPrint" if gen else ""))
+    return name
+
+
+def meta_to_scenario(sid, script, filters):
+    """script: sendMeta / readMeta ops printed by DownMeta.tla; the downstream is opened with one filter per entry of `filters`."""
+    steps = [{"a": "connect", "must": True},
+             {"a": "openDown", "obj": "D1", "qos": "reliable", "srcs": list(filters), "ids": ["A"], "ackFlushMs": 20, "must": True}]
+    for op in script:
+        if op["a"] == "sendMeta":
+            steps.append({"a": "sendDownMeta", "obj": "D1", "src": op["src"], "tag": 500 + op["tag"]})
+        elif op["a"] == "readMeta":
+            steps.append({"a": "readMeta", "g": "R2", "obj": "D1", "ctxMs": 1200, "wait": True})
+    # one more read that waits: nothing further may come (and nothing may be missing)
+    steps += [{"a": "readMeta", "g": "R2", "obj": "D1", "ctxMs": 250, "wait": True},
+              {"a": "closeDown", "g": "C", "obj": "D1", "ctxMs": 3000, "wait": True}, {"a": "quiesce"},
+              {"a": "closeConn", "g": "main2", "wait": True, "ctxMs": 2000}, {"a": "quiesce", "ms": 50}]
+    return {"id": sid, "kind": "iscp", "conn": {}, "steps": steps}
